@@ -51,6 +51,8 @@ let pure_obs (v : Move.position) : Alloc.observation * string =
 
 let run args =
   let stepf = (match args with "pinned" :: _ -> AllocInst.a_step_pinned | _ -> AllocInst.a_step) in
+  (* Alloc2.v models the repaired Clone only: in `pinned` mode its disagreements are not reported (its L2 text still is) *)
+  let refined = (match args with "pinned" :: _ -> false | _ -> true) in
   run_cases (fun fs ->
     let parts = L.map S.trim (S.split_on_char ';' (L.hd fs)) in
     let flags = words (L.hd parts) in
@@ -64,10 +66,11 @@ let run args =
     let lastv : (int, (Move.position * (Alloc.observation * string * string))) Hashtbl.t = Hashtbl.create 16 in
     let spec = ref None in
     let note s = if !spec = None then spec := Some s in
+    let note2 s = if refined then note s in
     let l1 = ref [] and l2 = ref [] in
     L.iteri (fun stepno op ->
       if not (Alloc.op_ok !ps op) then note (Printf.sprintf "step %d is not admissible in the model (dead source, or buffer = source)" stepno)
-      else if not (Alloc2.op_ok2 !ps !zs op) then note (Printf.sprintf "step %d is not admissible in the refined model (size outside 3..8, or a buffer of another size)" stepno);
+      else if not (Alloc2.op_ok2 !ps !zs op) then note2 (Printf.sprintf "step %d is not admissible in the refined model (size outside 3..8, or a buffer of another size)" stepno);
       let nbefore = L.length (!st).Alloc.s_objs in
       let (st', res) = stepf !st op in
       let (st2', res2) = Alloc2Inst.a2_step !st2 op in
@@ -77,12 +80,12 @@ let run args =
       (match res, res2 with
        | Some a, Move.Ok b when a = b -> ()
        | None, (Move.Err | Move.Panic) -> ()
-       | _ -> note (Printf.sprintf "step %d: the two store models return different results" stepno));
+       | _ -> note2 (Printf.sprintf "step %d: the two store models return different results" stepno));
       let objs = Array.of_list (!st).Alloc.s_objs in
       let arrs = (!st).Alloc.s_arrs in
       let objs2 = Array.of_list (!st2).Alloc2.s2_objs in
       let arrs2 = (!st2).Alloc2.s2_arrs in
-      if Array.length objs2 <> Array.length objs then note (Printf.sprintf "step %d: the two store models hold different numbers of objects" stepno);
+      if Array.length objs2 <> Array.length objs then note2 (Printf.sprintf "step %d: the two store models hold different numbers of objects" stepno);
       (match op, res with
        | Alloc.OMove _, None -> if Array.length objs > nbefore then Hashtbl.replace unheld nbefore ()
        | _ -> ());
@@ -126,7 +129,7 @@ let run args =
             (* the refined store model: the value read through the Height/Stacks headers, the groups through theirs *)
             let v2 = Alloc2.view arrs2 o2 in
             if not (v2 = v) || Alloc.read_ref arrs2 o2.Alloc2.o2_wg <> wg || Alloc.read_ref arrs2 o2.Alloc2.o2_bg <> bg
-            then note (Printf.sprintf "after step %d the refined store model's view of handle %d (through its headers) differs from the pure value" stepno k);
+            then note2 (Printf.sprintf "after step %d the refined store model's view of handle %d (through its headers) differs from the pure value" stepno k);
             let t1 = if with_legal then t1 ^ "/" ^ legal_digest v else t1 in
             let t2 = if v2 = v then t2raw else enc v2 in
             let (t1, t2) = if full then (t1, t2) else (md5_16 t1, md5_16 t2) in
